@@ -1,6 +1,7 @@
 package props
 
 import (
+	"astverif/errflow"
 	"astverif/itersafe"
 	"astverif/pathint"
 	"astverif/report"
@@ -59,6 +60,8 @@ func c03(c *Ctx) {
 	ck.Run(r, demuxRoots)
 	// T1 clause: the syntax header pointer is only dereferenced for table ids that have one (no nil dereference)
 	tables.T1(c.P, r)
+	// reaching ErrNoMorePackets: an exhausted reader is never turned into a successful read of nothing
+	errflow.E4b(c.P, r)
 	r.Floor("P5", "progress-on-error return classes of NextPacket", r.Counters["sites_P5"], 1)
 	r.Floor("P6", "declared-end loops", r.Counters["sites_P6"], 1)
 }
